@@ -22,7 +22,7 @@ from .. import alpha, core, ref, sched
 LEVEL = "model_checking"
 RULE = ("closed loop: attitude in {centre, 8 corners of |r_i|<=0.3} (thorough + |r| up to 0.9) x bias {(0.07,0.02,-0.07),(-0.05,0.05,0.05),0} x initialize {T,F} x "
         "(decl,incl) {(0,0),(0,0.3),(0.2,1.0)} x rates {default,(1/400,1/100,1/25,1/100), corrections rate-limited to 50/25 Hz} + rate relations {mag 3/400 s, IMU 6.5 ms, IMU 6 ms (alternating intervals), sim 0.25 ms with IMU 6 ms, sim 1 ms}; quick = deterministic pairwise-covering sub-lattice, thorough = full product; "
-        "parameter values as numpy.float64 / float32 / 0-d array / Fraction, numpy error state "raise"; node data flow over 70000 (thorough 400000) messages and for a deep copy of a live node; schedules: all tie-break orders with <= 1 deviation within the first 10 ms (thorough <= 2 within 50 ms) on one configuration. A state = one logged row; "
+        "parameter values as numpy.float64 / float32 / 0-d array / Fraction, numpy error state set to raise; node data flow over 70000 (thorough 400000) messages and for a deep copy of a live node; schedules: all tie-break orders with <= 1 deviation within the first 10 ms (thorough <= 2 within 50 ms) on one configuration. A state = one logged row; "
         "a transition = one logger period of the real system. non-trivial = run with non-zero attitude or bias; sensors: 7 axes x 16 angles x 3 decl x 4 incl")
 ASSUMPTIONS = ["thresholds are >= 3x the worst value observed over the thorough lattice on the repaired tree (default rates 0.0098 rad / 0.0041 rad/s; 100 Hz IMU 0.0294 / 0.0127)", "np.random.randn stubbed to zeros; noise disabled",
                "initial conditions between lattice points and horizons beyond 20/30 s not covered"]
